@@ -1643,3 +1643,20 @@ package rapid
 //@ func assertValidRange
 //@   ensures [C03] max < 0 || min <= max
 //@   panics any: true
+
+// ---------------------------------------------------------------------------------------------
+// strings.go: the name under which a character class is cached process-wide (C15: a generator shared by concurrent
+// checks draws what it draws alone - two different classes must never share a cache entry). The name is the regexp's
+// own String(), stored and handed out unchanged; that String() tells different classes apart is regexp/syntax's
+// business (assumed).
+//@ ghost reStr Str
+//@ ghost nameCached Bool
+//@ func regexpName
+//@   noframe "process-wide sync.Map cache"
+//@   nosafety "the cache holds only the strings this function stores (type assertion on a cached value)"
+//@   at regexpNames.Load#0 set nameCached = result1
+//@   at re.String#0 set reStr = result
+//@   at regexpNames.Store#0 assert [C15] strOf(arg1) == reStr
+//@   ensures [C15] implies(!nameCached, result == reStr)
+//@   panics any: true
+//@   modifies reStr, nameCached, published, heap
